@@ -7,7 +7,7 @@ from . import c05
 PROPERTY = 'C13'
 BUDGET = {'quick': {'seconds': 1500, 'xreplay_every': 100}, 'thorough': {'seconds': 6000, 'xreplay_every': 2000}}
 NONTRIVIAL = {'quick': ['timer-census', 'in-flight-timer', 'idle-no-timer', 'settled-silent', 'after-loss-silent', 'resumed', 'early-publish',
-                        'clean-reconnect', 'notification-pending', 'retry-fired', 'disconnect', 'lost-before-connack']}
+                        'clean-reconnect', 'notification-pending', 'retry-fired', 'disconnect', 'lost-before-connack', 'near-wrap']}
 
 KINDS = ('publish', 'subscribe', 'unsubscribe', 'PUBACK', 'PUBREC', 'PUBCOMP', 'SUBACK', 'UNSUBACK', 'advance', 'reconnect', 'disconnect')
 
@@ -93,6 +93,9 @@ def h_silence(eng, params):
     profile = params['profile']
     flow = Flow(eng, profile, clean=not params['persistent'])
     w = flow.w
+    if params.get('near_wrap'):
+        w.fac.id = eng.int('counter', 65533, 65535)
+        eng.count('near-wrap')
     flow.open()
     flow.set_window()
     census(flow, 'start')
@@ -110,7 +113,7 @@ def h_silence(eng, params):
         if getattr(c, 'disconnected', False) and kind not in ('reconnect', 'advance'):
             continue
         if kind == 'publish':
-            flow.publish(qos=eng.int('qos', 1, 2))
+            flow.publish(qos=eng.int('qos', 0, 2) if params.get('qos0') else eng.int('qos', 1, 2))
             nreq += 1
         elif kind == 'subscribe':
             flow.subscribe('str')
@@ -167,6 +170,22 @@ def h_silence(eng, params):
         flow.advance(1000)
         eng.check(not w.pending_timers(), 'timer-outlives-connection', '%d timers left long after every connection was lost' % len(w.pending_timers()))
     settled_silence(flow)
+    # a request that was failed or purged is never written afterwards, on any connection (matched by its unique topic)
+    allp = flow.all_packets()
+    for r in flow.reqs:
+        if r.kind == 'publish' and r.tr is not None and r.tr.fired and not r.tr.fired[0][1]:
+            s0 = r.tr.fired[0][0]
+            for (s_, c_, p_) in allp:
+                if s_ > s0 and p_['type'] == 'PUBLISH' and all_eq(p_['topic'], r.topic) is True:
+                    eng.check(False, 'write-for-settled-request', 'PUBLISH of a failed/purged request written in step %d (%s)' % (s_, w.steps[s_][0]),
+                              sig='write-for-settled-request:PUBLISH:failed')
+    # QoS 0 messages of a purged session must not show up later either
+    for r in flow.reqs:
+        if r.kind == 'publish' and r.tr is not None and r.accepted() and as_int(r.conn.clean) == 1 and r.conn.lost:
+            for (s_, c_, p_) in allp:
+                if c_ is not r.conn and p_['type'] == 'PUBLISH' and all_eq(p_['topic'], r.topic) is True:
+                    eng.check(False, 'write-for-settled-request', 'a PUBLISH accepted on a lost clean-session connection was written on a later connection',
+                              sig='write-for-settled-request:PUBLISH:purged')
     return flow.finish()
 
 
@@ -184,6 +203,11 @@ def shards(tier):
                         continue
                     out.append(('silence', {'profile': profile, 'persistent': persistent, 'k': 5 if T else 4, 'maxreq': 3,
                                             'first': first, 'second': second}))
+                    if profile == 'publisher' and first == 'publish' and second in ('publish', 'reconnect', 'PUBACK', 'advance'):
+                        out.append(('silence', {'profile': profile, 'persistent': persistent, 'k': 5 if T else 4, 'maxreq': 3,
+                                                'first': first, 'second': second, 'qos0': True}))
+                        out.append(('silence', {'profile': profile, 'persistent': persistent, 'k': 4 if T else 3, 'maxreq': 3,
+                                                'first': first, 'second': second, 'near_wrap': True}))
                     if 'reconnect' in (first, second) and profile != 'subscriber' and (T or second in ('advance', 'reconnect', 'publish', 'PUBACK')):
                         out.append(('silence', {'profile': profile, 'persistent': persistent, 'k': 4 if T else 3, 'maxreq': 3,
                                                 'first': first, 'second': second, 'lost_before_connack': True}))
@@ -194,7 +218,7 @@ META = {
     'rule': 'histories of k free steps over requests of every kind, acknowledgements with symbolic identifiers, symbolic time, disconnect(), loss + rebuilt protocol '
             '+ connect(clean symbolic) (+ publish before CONNACK) + CONNACK; after EVERY step a census of reactor.getDelayedCalls() against the number of packets '
             'awaiting acknowledgement computed from the wire and receive logs; then 100 s, 10000 s, final loss, 1001 s',
-    'bounds': {'quick': 'k=4 with at most 3 requests; 3 profiles; clean and persistent first session', 'thorough': 'k=5 with at most 3 requests'},
+    'bounds': {'quick': 'k=4 with at most 3 requests (QoS 1..2; variants with QoS 0..2 and with the identifier counter placed at 65533..65535); 3 profiles; clean and persistent first session', 'thorough': 'k=5 with at most 3 requests'},
     'stubs': ['fake transport with asynchronous loss', 'twisted task.Clock', 'jitter: fixed sequence',
               'the onDisconnection notification is recognised as the handler the harness installed (target of the delayed call)'],
     'outside': ['keepalive > 0 (its timers are the subject of C15)', 'timers between abortConnection() and the loss report'],
